@@ -3,10 +3,11 @@
 Theorem part: coq/C13 (order-independent renderers, join by index, schedule-independent thread
 answers and stats snapshot on top of the C12 model).  Direct oracle: harness/src/bin/c13.rs
 processes one (dump, symbols) pair runs x 3 executors times and counts distinct renderings."""
+import os
 import re
 
 from runner import PropBase
-from vlib import Rng
+from vlib import Rng, REPO
 from props.c03 import Gen, gen_limits, hx, CPUS
 
 U64 = (1 << 64) - 1
@@ -32,6 +33,30 @@ def modules_of(case):
             name = "" if f[2] == "-" else bytes.fromhex(f[2]).decode("utf-8", "replace")
             out.append(name)
     return out
+
+
+# the keys the readers of the Linux text streams compare against, taken from the source that is being checked
+# (byte-string literals of the non-test code): a key spelled in the code is a key the generator uses
+KEY_FILES = ["minidump-processor/src/process_state.rs", "minidump-processor/src/processor.rs"]
+KEY_FALLBACK = ["DISTRIB_ID", "ID", "DISTRIB_RELEASE", "VERSION_ID", "DISTRIB_CODENAME", "VERSION_CODENAME",
+                "DISTRIB_DESCRIPTION", "PRETTY_NAME", "Pid", "microcode"]
+
+
+def scan_keys(repo=REPO):
+    keys = []
+    for f in KEY_FILES:
+        try:
+            src = open(os.path.join(repo, f), encoding="utf-8", errors="replace").read()
+        except OSError:
+            continue
+        src = re.split(r"#\[cfg\(test\)\]", src)[0]
+        for m in re.finditer(r'b"([A-Za-z_][A-Za-z0-9_ ]{0,40})"', src):
+            if m.group(1) not in keys:
+                keys.append(m.group(1))
+    for k in KEY_FALLBACK:
+        if k not in keys:
+            keys.append(k)
+    return keys
 
 
 STATS_PATH = re.compile(r"^modules\.(\d+)\.(loaded_symbols|missing_symbols|corrupt_symbols|symbol_url)$")
@@ -178,12 +203,131 @@ class C13(PropBase):
             toks.append("T=%d:%d:%s:%s=%d,%s=%d" % (tid, base, hx(st), ipn, ip, spn, base))
         return " ".join(toks)
 
+    # ---- Linux key/value text streams (lsb-release / os-release, /proc/self/status, /proc/cpuinfo, environ)
+    VALUES = ["Ubuntu", "ubuntu", "22.04", "22.04.3 LTS", "jammy", "Jammy Jellyfish", "Ubuntu 22.04.3 LTS", "0x1f", "0x2b000000", "0xZZ", "0x",
+              "4242", "17", "+9", "-1", "4294967296", "", " ", "x y", "\"q\"", "Debian GNU/Linux 12 (bookworm)", "12", "bookworm", "a=b", "a:b", "\t7"]
+
+    def kv_stream(self, rng, keys, sep, ascii_only=True):
+        """lines `key<sep>value` over the dictionary: most keys present, every value different, some keys repeated with
+        conflicting values, optional quotes / blanks around keys and values, a few lines that are not key/value at all"""
+        lines = []
+        picked = [k for k in keys if rng.chance(2, 3)]
+        for _ in range(rng.below(4)):
+            picked.append(rng.choice(keys))
+        for _ in range(rng.below(3)):
+            picked.append(rng.choice(["NAME", "HOME_URL", "processor", "model name", "Name", "PPid", "Uid", "PATH", "id", "pid", ""]))
+        for i in range(len(picked) - 1, 0, -1):
+            j = rng.below(i + 1)
+            picked[i], picked[j] = picked[j], picked[i]
+        n = 0
+        for k in picked:
+            v = rng.choice(self.VALUES)
+            if rng.chance(1, 2):
+                v = "%s%d" % (v, n)       # distinct values: a conflict is visible whichever line wins
+            n += 1
+            if rng.chance(1, 3):
+                v = '"%s"' % v
+            if rng.chance(1, 6):
+                k = '"%s"' % k
+            pad = rng.choice(["", "", "", " ", "\t", "  "])
+            pad2 = rng.choice(["", "", " ", "\t"])
+            line = "%s%s%s%s%s" % (k, pad2, sep, pad, v)
+            if rng.chance(1, 12):
+                line = rng.choice([k, sep, "", " ", k + sep, sep + v, k + sep + sep + v, '"' + sep + '"'])
+            lines.append(line)
+        data = ("\n".join(lines) + rng.choice(["\n", "\n", ""])).encode()
+        if not ascii_only and rng.chance(1, 5) and data:
+            b = bytearray(data)
+            b[rng.below(len(b))] = rng.choice([0xff, 0xc3, 0x80, 0])
+            data = bytes(b)
+        return data
+
+    def linux_streams_case(self, rng, keys):
+        toks = ["cpu=%s" % rng.choice(["amd64", "x86", "arm64"]), "os=%s" % rng.choice(["linux", "linux", "android"]), "opt=%d" % rng.below(3),
+                "T=1:65536:z64:0"]
+        toks.append("lsb=" + hx(self.kv_stream(rng, keys, "=", False)))
+        if rng.chance(3, 4):
+            toks.append("status=" + hx(self.kv_stream(rng, keys, ":", False)))
+        if rng.chance(3, 4):
+            toks.append("cpuinfo=" + hx(self.kv_stream(rng, keys, ":", False)))
+        if rng.chance(1, 2):
+            toks.append("environ=" + hx(self.kv_stream(rng, keys, "=", False).replace(b"\n", b"\0")))
+        if rng.chance(1, 2):
+            # limits with repeated names and conflicting values
+            names = ["Max cpu time", "Max open files", "Max x", "Max open files", "Max cpu time"]
+            lines = ["Limit  Soft Limit  Hard Limit  Units"] + ["%s  %s  %s  %s" % (rng.choice(names), rng.choice(["unlimited", "1024", "0", "7"]), rng.choice(["unlimited", "4096", "9"]), rng.choice(["bytes", "files", "seconds"])) for _ in range(rng.range(2, 8))]
+            toks.append("limits=" + hx(("\n".join(lines) + "\n").encode()))
+        return " ".join(toks)
+
+    def many_threads_case(self, rng):
+        """33..80 threads over 2..6 modules; sk= makes the supplier suspend a different number of times per module
+        (rotated per run), so the walks complete in an order that is not the thread-list order"""
+        cpu = rng.choice(["amd64", "amd64", "x86", "arm64"])
+        bits, ips, sps, fps, lrs, pre = CPUS[cpu]
+        w = bits // 8
+        sp = pre + sps[0]
+        nm = rng.range(2, 6)
+        size = 0x10000
+        toks = ["cpu=" + cpu, "os=" + rng.choice(["linux", "win", "mac", "android"]), "opt=%d" % rng.below(3)]
+        mods = []
+        ns = 0
+        for i in range(nm):
+            base = 0x400000 + i * 0x100000
+            name = rng.choice(["/lib/lib%d.so", "C:\\w\\mod%d.dll", "/usr/lib/x/m%d.so"]) % i
+            if i < 2 or rng.chance(3, 4):
+                text = ("MODULE Linux %s 000000000000000000000000000000000 m%d\nFUNC 0 %x 0 fn_of_module_%d\nSTACK CFI INIT 0 %x .cfa: %s %d + .ra: .cfa %d - ^\n"
+                        % (cpu, i, size, i, size, sp, 2 * w, w))
+                toks.append("S=" + hx(text.encode()))
+                toks.append("M=%d:%d:%s:%d" % (base, size, hx(name.encode()), ns))
+                ns += 1
+            else:
+                toks.append("M=%d:%d:%s:-" % (base, size, hx(name.encode())))
+            mods.append(base)
+        nthreads = rng.range(33, 80)
+        tids = []
+        while len(tids) < nthreads:
+            t = rng.range(1, 5000)
+            if t not in tids:
+                tids.append(t)
+        # thread 0 sits in one module, (almost) everybody else in another: the slow module decides who finishes last
+        first_mod = rng.below(nm)
+        for t in range(nthreads):
+            base = 0x1000000 + t * 0x1000
+            mi = first_mod if t == 0 else (rng.below(nm) if rng.chance(1, 3) else (first_mod + 1) % nm)
+            words = []
+            for k in range(8):
+                words.append(rng.choice(mods) + 0x100 + rng.below(0x800) if k % 2 == 0 and k < 4 and rng.chance(2, 3) else base + w * (k + 2))
+            stack = b"".join((x & ((1 << bits) - 1)).to_bytes(w, "little") for x in words)
+            regs = ["%s=%d" % (n, mods[mi] + 0x40 + 4 * rng.below(0x40)) for n in ips]
+            regs += ["%s=%d" % (n, base) for n in sps]
+            regs += ["%s=%d" % (n, base + 2 * w) for n in fps]
+            regs += ["%s=%d" % (n, rng.choice(mods) + 0x80) for n in lrs]
+            toks.append("T=%d:%d:%s:%s" % (tids[t], base, hx(stack), ",".join(regs)))
+        if rng.chance(1, 2):
+            toks.append("X=%d:11:0:0:0:0:0:-" % rng.choice(tids))
+        sk = [rng.choice([0, 1, 2, 3, 5, 8]) for _ in range(nm + rng.below(3))]
+        if len(set(sk[:nm])) == 1:
+            sk[first_mod] = sk[first_mod] + 3
+        toks.append("sk=%s runs=%d seed=%d" % (",".join(map(str, sk)), rng.choice([4, 6]), rng.range(1, 1 << 30)))
+        return " ".join(toks)
+
     def gen_cases(self, tier, seed):
         rng = Rng(seed)
         g = Gen(rng)
         dist = {}
         cases = []
         n_r, n_gen, n_fam = (3000, 900, 200) if tier == "quick" else (30000, 12000, 2000)
+        keys = scan_keys()
+        n_l = n_r // 2
+        for _ in range(n_l):
+            cases.append("L %s %s %s" % tuple(hx(self.kv_stream(rng, keys, sep)) or "-" for sep in ("=", ":", ":")))
+        dist["L_linux_kv_streams"] = n_l
+        for _ in range(n_fam):
+            cases.append(self.linux_streams_case(rng, keys) + " " + self.sched_suffix(rng))
+            cases.append(self.many_threads_case(rng))
+        dist["linux_kv_conflicts"] = n_fam
+        dist["many_threads_gt32"] = n_fam
+        dist["key_dictionary"] = keys
         alpha = "abMx  \t019+-ulimted"
         for _ in range(n_r):
             if rng.chance(1, 2):
@@ -258,11 +402,13 @@ class C13(PropBase):
     def oracle(self, case, ans, profile):
         if ans.startswith("P;;"):
             return "panic or hang while processing: " + ans[3:240]
-        if case.startswith("R ") or case.startswith("E "):
+        if case[:2] in ("R ", "E ", "L "):
             return None if ans[:1] == case[0] else "unparseable answer " + ans[:80]
         d = dict(t.split("=", 1) for t in ans.split() if "=" in t)
         if "n" not in d:
             return "unparseable answer " + ans[:80]
+        if d.get("ord", "ok") != "ok":
+            return "threads[] of the report is not in thread-list order (%s; %s distinct renderings in %s runs)" % (d["ord"], d["n"], d.get("runs"))
         if d["n"] == "1":
             return None
         paths = d.get("diff", "-").split(",")
@@ -280,7 +426,7 @@ class C13(PropBase):
         return msg
 
     def nontrivial(self, case, ans):
-        if case.startswith("R ") or case.startswith("E "):
+        if case[:2] in ("R ", "E ", "L "):
             return len(ans) > 2
         return " thr=0 " not in ans and ans.startswith("n=")
 
